@@ -1,4 +1,5 @@
 import CardVerif.Props.C09
+import CardVerif.Props.C09b
 /-! Axiom audit for C09 (gin: stock, pile and hands partition the deal). -/
 #print axioms CardVerif.C09.partition
 #print axioms CardVerif.C09.hand_sizes
@@ -8,3 +9,8 @@ import CardVerif.Props.C09
 #print axioms CardVerif.C09.discard_frame
 #print axioms CardVerif.C09.knock_frame
 #print axioms CardVerif.Gin.reach_inv
+#print axioms CardVerif.C09.partition_from
+#print axioms CardVerif.C09.hand_sizes_from
+#print axioms CardVerif.C09.stock_available_from
+#print axioms CardVerif.C09.stock_floor_from
+#print axioms CardVerif.C09.first_turn_from
